@@ -25,7 +25,7 @@ def RULE(tier):
     return ("real tcp Server/ServerTls with a victim and a sibling connection (sibling does an echo exchange), and real "
             "Client/ClientTls against a scripted peer; every execution with <= %d faults, a fault being one of 9 connection-level "
             "errnos (+ TLS EOF, + handshake aborts) injected at one send/recv/handshake call of the victim, or the victim's peer "
-            "closing / resetting / half-closing at one step boundary, or dying and reconnecting from the very same address before the server noticed. Oracle: service() never raises; victim ends cut off / aborted "
+            "closing / resetting / half-closing at one step boundary, or dying and reconnecting from the very same address before the server noticed; on TLS the victim's first handshake call may stay pending (a free choice), so faults and peer events also land on a pending handshake. Oracle: service() never raises; victim ends cut off / aborted "
             "/ removed-and-closed; sibling echo completes. One case = one fault placement; key = (hio call site, error)." % BOUND(tier))
 
 
@@ -50,7 +50,7 @@ def harness(job, ch):
 
 def server_side(tls, ch, wl=False):
     """victim = raw peer socket driven by the harness (c0) ; sibling = real hio client (c1)"""
-    pol = tcpsys.XPolicy(ch, partial=False, faults=ERRS, tlsfaults=tls, wants=False, connect_alts=False, only={"s0"})
+    pol = tcpsys.XPolicy(ch, partial=False, faults=ERRS, tlsfaults=tls, wants=False, connect_alts=False, only={"s0"}, pending_once=tls)
     w = tcpsys.TcpWorld(ch, tls=tls, bs=64, policy=pol, nclients=2, wirelog=wl)
     viol = []
     states = []
@@ -189,7 +189,7 @@ def _marked(w, victim, rem):
 
 def client_side(tls, ch, wl=False):
     """victim = real hio client; its peer is a raw FakeNet listener driven by the harness"""
-    pol = tcpsys.XPolicy(ch, partial=False, faults=ERRS, tlsfaults=tls, wants=False, connect_alts=False, only={"c0"})
+    pol = tcpsys.XPolicy(ch, partial=False, faults=ERRS, tlsfaults=tls, wants=False, connect_alts=False, only={"c0"}, pending_once=tls)
     net = fakenet.Net(pol)
     viol, states, acted = [], [], []
     escaped = []
